@@ -54,13 +54,15 @@ def jobs(tier):
                         dict(version=version, shape="samename2", P=16384, K=2, layout=layout, decoy="none")))
         out.append(("v%d.flat2.named-dir.decoy-none" % version, "job",
                     dict(version=version, shape="flat2", P=16384, K=2, layout="named-dir", decoy="none")))
+    out.append(("v1.flat2.flat.partial-decoy", "job", dict(version=1, shape="flat2", P=16384, K=2, layout="flat", decoy="partial")))
     out.append(("v1.flat2.flat.cli", "job", dict(version=1, shape="flat2", P=16384, K=2, layout="flat", decoy="none", via="cli")))
     out.append(("v1.batch2", "job_batch", dict()))
     return out
 
 
 def job(E, version, shape, P, K, layout, decoy, via="assembler", _mutants=None):
-    fs, sizes, meta, expected = rw.build_world(E, version, shape, P, K, layout, decoy, order="symbolic" if decoy != "none" else "reversed",
+    order = "reversed" if decoy == "none" else ("sorted" if decoy == "partial" else "symbolic")
+    fs, sizes, meta, expected = rw.build_world(E, version, shape, P, K, layout, decoy, order=order,
                                                lo=1 if shape == "single" else 0)
     snap = fs.snapshot()
     w = World(fs, mutants=_mutants)
@@ -133,7 +135,7 @@ def replay(params, model, notes, workdir, seed):
                 perms = listing_orders(len(names))
                 if int(v) < len(perms):
                     return [names[i] for i in perms[int(v)]]
-        return names[::-1]
+        return names if params.get("decoy") == "partial" else names[::-1]
     os.listdir = listdir
     try:
         try:
